@@ -79,6 +79,14 @@ pub struct GenOpts {
     pub unparseable_values: bool,
     /// entrypoints on non-root types that have an `id` (fetched through `node(id:)`)
     pub pct_non_root_entrypoint: usize,
+    /// allow `@loadable` selections of client fields whose parent type has neither an `id` nor is
+    /// a root type (the real compiler panics: "Expected refetch strategy")
+    pub loadable_without_refetch_strategy: bool,
+    /// client pointers may declare variables / use variables in their selection set
+    pub pointer_variables: bool,
+    /// client pointers may target types without `id` or root types (the real compiler panics:
+    /// "Type `T` is not fetchable")
+    pub pointer_to_unfetchable: bool,
 }
 
 impl Default for GenOpts {
@@ -120,6 +128,9 @@ impl Default for GenOpts {
             allow_cycles: false,
             unparseable_values: false,
             pct_non_root_entrypoint: 0,
+            loadable_without_refetch_strategy: false,
+            pointer_variables: true,
+            pointer_to_unfetchable: false,
         }
     }
 }
@@ -639,11 +650,13 @@ fn gen_schema(r: &mut Rng, o: &GenOpts) -> (Schema, Vec<Extension>) {
 struct DeclCtx {
     vars: Vec<VarDef>,
     var_names: Names,
+    /// never introduce variables (arguments that need one are left out or `null`)
+    no_vars: bool,
 }
 
 impl DeclCtx {
     fn new() -> DeclCtx {
-        DeclCtx { vars: vec![], var_names: Names::new(&[]) }
+        DeclCtx { vars: vec![], var_names: Names::new(&[]), no_vars: false }
     }
     /// A variable usable for an argument of type `target` (reusing a declared one sometimes).
     fn variable_for(&mut self, r: &mut Rng, o: &GenOpts, s: &Schema, target: &TypeRef, hint: &str) -> String {
@@ -671,12 +684,40 @@ impl DeclCtx {
     }
 }
 
-/// A value for an argument of type `t`.  `None` only if nothing can be written (never for the
-/// types the schema generator produces).
-fn gen_value(r: &mut Rng, o: &GenOpts, s: &Schema, cx: &mut DeclCtx, t: &TypeRef, hint: &str, in_object: bool) -> Value {
-    let allow_var = if in_object { pct(r, o.pct_var_in_object) } else { pct(r, o.pct_variable) };
-    if t.is_nullable() && r.chance(1, 12) {
-        return Value::Null;
+/// Can the compiler accept a VARIABLE for an argument of this type?  Not if a nullable list
+/// occurs anywhere in it: such types are compared including the source location embedded in
+/// the list annotation, so even a variable of the identical type is rejected ("Mismatched
+/// type").  (Reported as a finding; the generator steers around it.)
+pub fn accepts_variable(t: &TypeRef) -> bool {
+    match t {
+        TypeRef::Named(_) => true,
+        TypeRef::List(_) => false,
+        TypeRef::NonNull(i) => match &**i {
+            TypeRef::List(e) => accepts_variable(e),
+            other => accepts_variable(other),
+        },
+    }
+}
+
+/// Is there any way to write a value of type `t` (other than `null`)?
+fn writable(o: &GenOpts, s: &Schema, t: &TypeRef) -> bool {
+    if accepts_variable(t) {
+        return true;
+    }
+    let _ = (o, s);
+    false
+}
+
+/// A value for an argument of type `t`; `None` when none can be written (only possible when
+/// variables are forbidden: enum / custom scalar / list types have no literal syntax).
+fn gen_value(r: &mut Rng, o: &GenOpts, s: &Schema, cx: &mut DeclCtx, t: &TypeRef, hint: &str, in_object: bool) -> Option<Value> {
+    let var_ok = accepts_variable(t) && !cx.no_vars && !(in_object && o.pct_var_in_object == 0);
+    if t.is_nullable() && (r.chance(1, 12) || !writable(o, s, t)) {
+        return Some(Value::Null);
+    }
+    let want_var = var_ok && if in_object { pct(r, o.pct_var_in_object) } else { pct(r, o.pct_variable) };
+    if want_var {
+        return Some(Value::Var(cx.variable_for(r, o, s, t, hint)));
     }
     let literal: Option<Value> = if t.is_list() {
         if o.unparseable_values {
@@ -684,7 +725,7 @@ fn gen_value(r: &mut Rng, o: &GenOpts, s: &Schema, cx: &mut DeclCtx, t: &TypeRef
                 TypeRef::List(i) => *i,
                 other => other,
             };
-            Some(Value::List(vec![gen_value(r, o, s, cx, &inner, hint, true)]))
+            gen_value(r, o, s, cx, &inner, hint, true).map(|v| Value::List(vec![v]))
         } else {
             None
         }
@@ -694,15 +735,23 @@ fn gen_value(r: &mut Rng, o: &GenOpts, s: &Schema, cx: &mut DeclCtx, t: &TypeRef
             "Int" | "Float" | "String" | "Boolean" | "ID" => const_literal(r, o, s, &t.nullable()),
             n => match s.get(n).map(|t| &t.kind) {
                 Some(TypeKind::Input { fields }) => {
-                    let mut fs = vec![];
+                    let mut fs = Some(vec![]);
                     for f in fields {
                         // the compiler requires exactly the non-null NAMED fields
                         let required = matches!(&f.ty, TypeRef::NonNull(i) if matches!(**i, TypeRef::Named(_)));
-                        if required || pct(r, o.pct_optional_arg_given) {
-                            fs.push((f.name.clone(), gen_value(r, o, s, cx, &f.ty, &f.name, true)));
+                        if required || (pct(r, o.pct_optional_arg_given) && (f.ty.is_nullable() || writable(o, s, &f.ty))) {
+                            match gen_value(r, o, s, cx, &f.ty, &f.name, true) {
+                                Some(v) => {
+                                    if let Some(fs) = fs.as_mut() {
+                                        fs.push((f.name.clone(), v))
+                                    }
+                                }
+                                None if required => fs = None,
+                                None => {}
+                            }
                         }
                     }
-                    Some(Value::Object(fs))
+                    fs.map(Value::Object)
                 }
                 Some(TypeKind::Enum { values }) if o.unparseable_values => Some(Value::Enum(r.pick(values).clone())),
                 _ => None,
@@ -710,19 +759,15 @@ fn gen_value(r: &mut Rng, o: &GenOpts, s: &Schema, cx: &mut DeclCtx, t: &TypeRef
         }
     };
     match literal {
-        Some(v) => {
-            if allow_var {
-                Value::Var(cx.variable_for(r, o, s, t, hint))
-            } else {
-                v
-            }
-        }
+        Some(v) => Some(v),
         // no literal syntax for this type (enum, custom scalar, list): a variable is the only way
         None => {
-            if in_object && o.pct_var_in_object == 0 && t.is_nullable() {
-                Value::Null
+            if accepts_variable(t) && !cx.no_vars {
+                Some(Value::Var(cx.variable_for(r, o, s, t, hint)))
+            } else if t.is_nullable() {
+                Some(Value::Null)
             } else {
-                Value::Var(cx.variable_for(r, o, s, t, hint))
+                None
             }
         }
     }
@@ -744,19 +789,24 @@ fn fresh_alias(r: &mut Rng, used: &[String], base: &str) -> String {
     format!("{base}_{}", used.len())
 }
 
-fn gen_args_for(r: &mut Rng, pc: &ProgCtx, s: &Schema, cx: &mut DeclCtx, sel: &Selectable, loadable: bool) -> Vec<(String, Value)> {
+/// Arguments for a selection of `sel`; `None` if a required argument cannot be written.
+fn gen_args_for(r: &mut Rng, pc: &ProgCtx, s: &Schema, cx: &mut DeclCtx, sel: &Selectable, loadable: bool) -> Option<Vec<(String, Value)>> {
     let mut out = vec![];
     for a in &sel.args {
         let required = a.ty.is_non_null() && a.default.is_none();
         let give = if required { !(loadable && r.chance(1, 2)) } else { pct(r, pc.o.pct_optional_arg_given) };
         if give {
-            out.push((a.name.clone(), gen_value(r, pc.o, s, cx, &a.ty, &a.name, false)));
+            match gen_value(r, pc.o, s, cx, &a.ty, &a.name, false) {
+                Some(v) => out.push((a.name.clone(), v)),
+                None if required => return None,
+                None => {}
+            }
         }
     }
     if out.len() > 1 && r.chance(1, 3) {
         out.reverse();
     }
-    out
+    Some(out)
 }
 
 fn gen_selection_set(r: &mut Rng, pc: &ProgCtx, env: &Env, cx: &mut DeclCtx, ty: &str, depth: usize, allow_updatable: bool) -> Vec<Selection> {
@@ -810,7 +860,11 @@ fn gen_selection_set(r: &mut Rng, pc: &ProgCtx, env: &Env, cx: &mut DeclCtx, ty:
         let mut loadable = false;
         match x.kind {
             SelKind::ClientField => {
-                if pc.has_node_field && pct(r, o.pct_loadable) {
+                // `@loadable` needs a refetch strategy: the field's parent type is a root type or
+                // has an `id` (otherwise the compiler panics "Expected refetch strategy")
+                let refetchable = matches!(ty, "Query" | "Mutation" | "Subscription")
+                    || (pc.has_node_field && s.get(ty).map_or(false, |t| t.has_id()));
+                if (refetchable || o.loadable_without_refetch_strategy) && pct(r, o.pct_loadable) {
                     loadable = true;
                     head.directives.push(Directive::loadable(r.chance(1, 2)));
                 }
@@ -822,7 +876,13 @@ fn gen_selection_set(r: &mut Rng, pc: &ProgCtx, env: &Env, cx: &mut DeclCtx, ty:
             }
             _ => {}
         }
-        head.args = gen_args_for(r, pc, s, cx, x, loadable);
+        match gen_args_for(r, pc, s, cx, x, loadable) {
+            Some(a) => head.args = a,
+            None => {
+                used.pop();
+                continue;
+            }
+        }
         if x.kind.is_linked() {
             let target = x.target.clone().unwrap();
             let kids = gen_selection_set(r, pc, env, cx, &target, depth - 1, allow_updatable);
@@ -927,10 +987,22 @@ pub fn generate(r: &mut Rng, o: &GenOpts) -> Project {
             f
         };
         let env = Env::new(&p);
-        let decl = if !is_root && pct(r, o.pct_pointer) {
-            // pointer to a composite type; its own selection set is ordinary
-            let target = r.pick(&composites).clone();
+        // pointer targets: by default only types the compiler can refetch (non-root, with `id`,
+        // and `Query.node` present)
+        let pointer_targets: Vec<String> = composites
+            .iter()
+            .filter(|t| {
+                o.pointer_to_unfetchable
+                    || (pc.has_node_field
+                        && !matches!(t.as_str(), "Query" | "Mutation" | "Subscription")
+                        && p.schema.get(t).map_or(false, |t| t.has_id()))
+            })
+            .cloned()
+            .collect();
+        let decl = if !is_root && !pointer_targets.is_empty() && pct(r, o.pct_pointer) {
+            let target = r.pick(&pointer_targets).clone();
             let to = wrap_output(r, TypeRef::Named(target), true);
+            cx.no_vars = !o.pointer_variables;
             let selections = gen_selection_set(r, &pc, &env, &mut cx, &parent, o.max_depth.max(1), false);
             Decl::ClientPointer(ClientPointer {
                 parent: parent.clone(),
